@@ -37,6 +37,7 @@ type Params struct {
 	CloseAny        bool            // AsyncClose enabled at every decision point after the first submit
 	LastAfter       bool            // the last message is submitted only after the first outcome event
 	Icpt            int             // number of interceptors (counting + header-appending)
+	Pad             int             // >0: every value is padded to exactly Pad bytes ("<id>|xxx…"): record sizes at chosen points
 	Tomb            int             // >0: message number Tomb (1-based) is a tombstone: nil Value, its id travels in the key
 	IcptPanic       int             // >0: the interceptor at this (1-based) position of the chain panics after doing its work
 	Election        bool            // partition 0 goes through a leader election (env:leader-down / env:leader-up)
@@ -64,7 +65,7 @@ func Parse(v url.Values) (*Params, error) {
 		Idem: atoi(v, "idem", 0) == 1, RetryMax: atoi(v, "rm", 1), NMsgs: atoi(v, "nm", 2), NParts: atoi(v, "np", 1),
 		NBrokers: atoi(v, "nb", 1), FlushMsgs: atoi(v, "fm", 0), FlushMax: atoi(v, "fx", 0), FlushFreq: time.Duration(atoi(v, "ff", 0)) * time.Millisecond,
 		Backoff: time.Duration(atoi(v, "bo", 0)) * time.Millisecond, Policy: v.Get("policy"), CloseAny: atoi(v, "closeany", 0) == 1,
-		LastAfter: atoi(v, "lastafter", 0) == 1, Big: atoi(v, "big", 0), Election: atoi(v, "election", 0) >= 1, ElectionAtStart: atoi(v, "election", 0) == 2, Icpt: atoi(v, "icpt", 0), Tomb: atoi(v, "tomb", 0), IcptPanic: atoi(v, "icptpanic", 0),
+		LastAfter: atoi(v, "lastafter", 0) == 1, Big: atoi(v, "big", 0), Election: atoi(v, "election", 0) >= 1, ElectionAtStart: atoi(v, "election", 0) == 2, Icpt: atoi(v, "icpt", 0), Tomb: atoi(v, "tomb", 0), Pad: atoi(v, "pad", 0), IcptPanic: atoi(v, "icptpanic", 0),
 		Acks: sarama.RequiredAcks(atoi(v, "acks", 1)), Sync: atoi(v, "sync", 0),
 	}
 	if p.Policy == "" {
@@ -91,7 +92,14 @@ func Parse(v url.Values) (*Params, error) {
 	}
 	p.Version = kv
 	if s := v.Get("faults"); s != "" {
-		p.Faults = strings.Split(s, ",")
+		p.Faults = nil
+		for _, f := range strings.Split(s, ",") {
+			if f == "codes" { // every Kafka error code as a produce answer
+				p.Faults = append(p.Faults, strings.Split(CodeFaults(), ",")...)
+			} else {
+				p.Faults = append(p.Faults, f)
+			}
+		}
 	}
 	if s := v.Get("mfaults"); s != "" {
 		p.MetaFaults = strings.Split(s, ",")
@@ -379,6 +387,9 @@ func (r *rig) actors() []gx.Actor {
 				r.mu.Unlock()
 				id := msgID(i)
 				msg := &sarama.ProducerMessage{Topic: "t", Partition: p.Parts[i], Value: sarama.StringEncoder(id), Metadata: id}
+				if p.Pad > len(id)+1 {
+					msg.Value = sarama.StringEncoder(id + "|" + strings.Repeat("x", p.Pad-len(id)-1))
+				}
 				if p.Tomb == i+1 {
 					msg.Value = nil // a tombstone (Encoder interface left nil)
 				}
